@@ -336,3 +336,23 @@ check(
     level_note="trusted: the harness sieve and the deterministic Miller-Rabin base set {2,3,5,7,11} for 32-bit arguments; the step hook counts trial divisions / loop iterations",
     assumptions=["nextprime is only judged where the answer is representable (n <= 4294967291); ispow2 only where 2^nextpow2(m) is representable (m <= 2^30)"],
 )
+
+check(
+    "C16",
+    runs=[dict(harness="C16_order", flavour="plain")],
+    rule=("sort (ascending and descending) and median for every length 1..2000 (quick: 1..300 + a residue class) x content {distinct, "
+          "repeated, sorted, reversed, constant, plateaus with signed zeros}: output ordered, index vector a permutation, sorted[i] == "
+          "x[idx[i]] bitwise, input untouched; MedianFilter (initial history value) and medfilt (zero padded, centred) for every order 3..64 "
+          "over streams of 2500 / 10000 samples in random frames, compared exactly with a brute-force window median; corr Pearson / Spearman / "
+          "Kendall for all permutations of length <= 7 and random Gaussian pairs to n = 2000 against O(n^2) long-double definitions, "
+          "symmetry, range [-1,1], and +-1 for strictly monotone (rank) / linear (Pearson) relations given in random order. "
+          "distinct = (function, configuration, input bits)."),
+    exhaustive_subspaces={"quick": ["all permutations of length <= 7 for the three correlation coefficients", "all median filter orders 3..64"],
+                          "thorough": ["all permutations of length <= 7 for the three correlation coefficients", "all median filter orders 3..64", "all sort/median lengths 1..2000 x 6 content kinds"]},
+    min_distinct={"quick": 10000, "thorough": 30000},
+    min_obs={"quick": {"corr_pairs": 5000, "median_filter_outputs": 100000}, "thorough": {"corr_pairs": 5000, "median_filter_outputs": 1000000}},
+    technique="runtime monitor: brute-force order-statistic and O(n^2) rank-correlation references as oracle, exhaustive permutations",
+    level_text=("Sorting, medians and correlation coefficients are executed over the stated lengths, orders and all short permutations "
+                "and compared with brute-force definitions; held on the evaluations counted in the evidence."),
+    level_note="trusted: std::sort in the brute-force references; long double sums for Pearson",
+)
